@@ -96,14 +96,14 @@ CONF = {
         "thorough": {"rapid": [("TestC02", 2500, 16)]},
     },
     "C03": {
-        "rule": "rapid-generated receive attempts inside L2 histories (admin/ledger ops change pause flags, attesters, pairs, messengers, allowance, blacklist, minter status); each attempt falsifies a drawn subset of {P2..P7,M2..M6} with several realisations per condition and P1/M1/M6 through state; oracle: success <=> all applicable conditions (recomputed from bytes and model state, attestation by the independent verifier); non-trivial = attempt with a >=116-byte message whose condition vector was not seen before in the case; distinct by condition vector",
-        "quick": {"rapid": [("TestC03", 500, 1)]},
-        "thorough": {"rapid": [("TestC03", 3000, 16)]},
+        "rule": "rapid-generated receive attempts (a) bounded-exhaustive: all 2^12 subsets of {P1,P2,P4,P5,P6,P7,M1..M6} x 4 value realisations for module-addressed messages, all 2^6 subsets of the P conditions x 4 for other recipients, all 116 header truncations, each through the real message router on a discarded branch (success <=> empty subset; failure => no store changed); (b) inside L2 histories (admin/ledger ops change pause flags, attesters, pairs, messengers, allowance, blacklist, minter status); each attempt falsifies a drawn subset of {P2..P7,M2..M6} with several realisations per condition and P1/M1/M6 through state; oracle: success <=> all applicable conditions (recomputed from bytes and model state, attestation by the independent verifier); non-trivial = attempt with a >=116-byte message whose condition vector was not seen before in the case; distinct by condition vector",
+        "quick": {"rapid": [("TestC03", 500, 1)], "plain": ["TestC03Enum"]},
+        "thorough": {"rapid": [("TestC03", 3000, 16)], "plain": ["TestC03Enum"]},
     },
     "C08": {
-        "rule": "rapid-generated deposits (both variants) inside L2 histories that move limits, max body size (131/132/133), messengers, pause flags, ledger pause/blacklist/minter/allowance and inject dependency faults; amounts from {-1,0,1,limit-1,limit,limit+1,2^64..2^256-1}; oracle: success <=> conjunction of the documented preconditions; non-trivial = amount within 1 of a configured limit, or max body size within 1 of 132, or >=2 preconditions false; distinct by (condition vector, amount, max body size)",
-        "quick": {"rapid": [("TestC08", 600, 1)]},
-        "thorough": {"rapid": [("TestC08", 5000, 16)]},
+        "rule": "(a) bounded-exhaustive: all 2^11 subsets of the eleven preconditions x 4 value realisations (with-caller variant; dependency failures by injected faults, empty balance and blacklist) through the real message router on a discarded branch; (b) rapid-generated deposits (both variants) inside L2 histories that move limits, max body size (131/132/133), messengers, pause flags, ledger pause/blacklist/minter/allowance and inject dependency faults; amounts from {-1,0,1,limit-1,limit,limit+1,2^64..2^256-1}; oracle: success <=> conjunction of the documented preconditions; non-trivial = amount within 1 of a configured limit, or max body size within 1 of 132, or >=2 preconditions false; distinct by (condition vector, amount, max body size)",
+        "quick": {"rapid": [("TestC08", 600, 1)], "plain": ["TestC08Enum"]},
+        "thorough": {"rapid": [("TestC08", 5000, 16)], "plain": ["TestC08Enum"]},
     },
     "C07": {
         "rule": "rapid-generated L2 histories (4..30 transactions over sends, sends-with-caller, deposits, deposits-with-caller, both replacements, multi-message transactions, receives and admin actions, from starting counters {0,1,2^32-1,2^32,2^63,2^64-100}); non-trivial = >=3 successful producers of >=2 types with >=1 failed transaction and >=1 successful replacement; distinct by (start, sequence of op labels and outcomes)",
